@@ -874,6 +874,10 @@ class CompositeCanvas(Canvas):
 
         self.shards = top_shards + middle_shards + bottom_shards
 
+        cursor = self.coords.get("cursor")
+        if cursor is not None and left <= cursor[0] < left + width and top <= cursor[1] < top + height:
+            # the cell the cursor was in is covered by the other canvas now
+            del self.coords["cursor"]
         self.coords.update(other.translate_coords(left, top))
 
     def fill_attr(self, a: Hashable) -> None:
